@@ -10,7 +10,20 @@ prop("C18", "exploration",
      "(B) valid encodings are mutated (length fields set to 0/1/actual+-1/0xFF/0xFFFF, truncation, trailing bytes, spliced or "
      "deleted blocks, byte and bit edits); whenever the real decoder accepts the bytes as v and the encoder accepts v, decoding "
      "the re-encoding must give v again. Small finite sub-spaces are enumerated (all string lengths 0..600, all id types x label "
-     "lengths 0..260, all grant types, all 256 flag / type bytes). Non-trivial (A) = some field at or just past a framing limit, "
+     "lengths 0..260, all grant types, all 256 flag / type bytes). (C) delivery dimension: every case of a codec whose decoder "
+     "takes a reader (common.ReadString, certs Name / Certificate ReadFrom and ReadManyCertificatesPEM, the authgrants message and "
+     "proxy readers, codex.GetCmd / readSize, portforwarding.readPacket) also draws a delivery pattern - whole buffer (1 in 8), "
+     "one byte per Read (2 in 8), segments (a Read never crosses a cut) or per-call limits of 1..6 drawn sizes from "
+     "{1,2,3,4,5,7,8,9,16,31..33,64,127,255..257,512,4096} and 1..600 (5 in 8); independently (1 in 2 each) end-of-stream is "
+     "returned together with the last bytes (closed stream instead of the sentinel stream) and some Read calls first return "
+     "(0, nil), never twice in a row. After the whole-buffer decode of (A) and of (B) the same bytes are decoded again from a "
+     "stream delivering them that way: acceptance, every wire field (for certificates also the fingerprint and the retained raw "
+     "bytes) and the number of bytes consumed must equal the whole-buffer outcome (signature "
+     "C18:delivery-changes-decoding:<codec>:<rejected|accepted|field|consumed>). Enumerated sweeps take the pattern from a fixed "
+     "table of 8 (the string sweep runs all 8 per length), native fuzz targets derive it from a hash of the input. User-"
+     "authentication requests (real tube) realise the pattern as up to 24 separate writes, each delivered and read before the next, "
+     "and as reading only after the peer's close was processed. Frame codecs (one datagram = one byte slice) and key parsers "
+     "(strings / PEM blocks) have no reader and therefore no delivery dimension. Non-trivial (A) = some field at or just past a framing limit, "
      "or an enum value without a named constant; (B) = an accepted input that differs from its own re-encoding; distinct by case "
      "hash. The exhaustive flag refers to the enumerated sweeps only. User-authentication requests travel over a real reliable "
      "tube (muxer pair on an in-memory network inside a synctest bubble) because GetInitMsg demands one. Thorough tier adds native "
@@ -48,7 +61,9 @@ prop("C18", "exploration",
      text="Round-trip search over every wire codec: generated values (edge-biased field lengths, all enum bytes) are encoded by "
           "the real encoder and decoded by the real decoder from a stream that continues with sentinel bytes, so that a wrapped "
           "length prefix shows up as a value or consumed-length mismatch; mutated encodings that the decoder accepts are "
-          "re-encoded and decoded again and must be stable.",
+          "re-encoded and decoded again and must be stable. Every decode from a reader is repeated with the same bytes delivered "
+          "in generated pieces (one byte at a time, drawn chunk sizes, zero-byte reads, end-of-stream together with the last bytes) "
+          "and must give the same value and consume the same number of bytes.",
      note="trusts rapid and field-by-field comparison written from the struct definitions; 4 GiB fields not exercised",
      technique="property-based round-trip and decode-encode-decode testing (rapid) with small exhaustive sweeps; native fuzzing in the thorough tier",
      design="DESIGN.md section 4, C18")
